@@ -5,10 +5,13 @@
      [ph in no_count_types]), EventLimiter.is_within_limits (window intersection, counter that
      counts only in-window events, skip / skip+count bounds),
      NormalizationContext.event_within_limits (left-to-right [or]: ignored types never reach the
-     counting call), NormalizationContext.extract_eventfilters (split on "," and ":", entries that
-     are not exactly key:regex skipped, one list entry per pair - repeated attributes all count),
-     NormalizationContext.event_filtered (walk over "." separated attribute path with its [break]
-     on a missing key, [not isinstance(e, dict) and regex.search(str(e))]),
+     counting call), NormalizationContext.extract_eventfilters (split on ",", every entry split at
+     its FIRST ":" only - [fstr.split(":", 1)] - so the regex may contain colons; an entry without
+     a colon is skipped; one list entry per pair - repeated attributes all count),
+     NormalizationContext.event_filtered (walk over the "." separated attribute path:
+     [if not isinstance(e, dict) or a not in e: found = False; break]; the regex is applied only
+     when the whole path was found and the leaf is not a dict:
+     [found and not isinstance(e, dict) and regex.search(str(e))] - a total function, no exception),
      _attr_to_args, _hex_to_int_str, _name_unification, _capitalized_args and the order of
      normalize_phase1 (limits; non-X pass; normalisations; filter; jobname).
    Not modelled here: tsx_32bit_local_correction (C05) — for events carrying TS1 the model only
@@ -17,7 +20,10 @@
    An event is the Python dict itself: an association list in insertion order over a JSON-like
    tree.  Regular expressions are a Section variable [re_search : pattern -> subject -> bool]
    (Python's re.search, trusted); the tie instantiates it with a small derivative matcher over
-   patterns that the harness generates together with their syntax tree. *)
+   patterns that the harness generates together with their syntax tree.  Python's str() of the
+   non-dict value an attribute path ends at is a Section variable [py_str : json -> string] as
+   well; the tie instantiates it with [tie_str] (str / int / bool / None leaves) and refuses, with
+   an explicit outcome, inputs in which a filter path ends at a float or list value. *)
 From Coq Require Import ZArith QArith List Bool String Ascii DecimalString.
 Import ListNotations.
 From AiuModel Require Import Base.
@@ -94,6 +100,17 @@ Fixpoint split_go (c : ascii) (s : string) (acc : string) : list string :=
                    else split_go c t (acc ++ String ch EmptyString)
   end.
 Definition split_on (c : ascii) (s : string) : list string := split_go c s EmptyString.
+
+(* str.split(c, 1): None when s has no c (one part), else (text before the first c, the rest) *)
+Fixpoint split_first (c : ascii) (s : string) : option (string * string) :=
+  match s with
+  | EmptyString => None
+  | String ch t =>
+      if Ascii.eqb ch c then Some (EmptyString, t)
+      else match split_first c t with Some (k, r) => Some (String ch k, r) | None => None end
+  end.
+Fixpoint has_char (c : ascii) (s : string) : bool :=
+  match s with EmptyString => false | String ch t => Ascii.eqb ch c || has_char c t end.
 
 Definition is_space (c : ascii) : bool :=
   let n := nat_of_ascii c in (Nat.eqb n 32 || (Nat.leb 9 n && Nat.leb n 13))%bool.
@@ -246,52 +263,45 @@ Definition pystr (j : json) : option string :=
   | _ => None
   end.
 
-(* e = event; for a in attr.split('.'): if a not in e: break; e = e[a] *)
-Fixpoint walk (e : json) (path : list string) : res json :=
+(* e = event; found = True
+   for a in attr.split('.'):
+       if not isinstance(e, dict) or a not in e: found = False; break
+       e = e[a]
+   Some leaf = the whole path was found (fix C17d: a path that leaves the dicts names an attribute
+   the event does not have - no substring test on strings, no TypeError on numbers) *)
+Fixpoint walk (e : json) (path : list string) : option json :=
   match path with
-  | [] => Ok e
+  | [] => Some e
   | a :: rest =>
       match e with
-      | JD kv => match dget a kv with Some v => walk v rest | None => Ok e end
-      | JS s => if contains a s then Err "TypeError" else Ok e        (* substring test, then s[a] *)
-      | JL l => if existsb (fun x => match x with JS y => String.eqb y a | _ => false end) l
-                then Err "TypeError" else Ok e
-      | _ => Err "TypeError"                                          (* [a not in 5] *)
+      | JD kv => match dget a kv with Some v => walk v rest | None => None end
+      | _ => None
       end
   end.
 
-(* extract_eventfilters *)
+(* extract_eventfilters: key_regex = fstr.split(":", 1); skipped unless it has two parts *)
 Definition add_filter (acc : list (string * string)) (f : string) : list (string * string) :=
-  match split_on ":"%char f with
-  | [k; r] => acc ++ [(k, r)]       (* a list of pairs: every entry counts, also a repeated attribute (fix C17b) *)
-  | _ => acc
+  match split_first ":"%char f with
+  | Some kr => acc ++ [kr]          (* a list of pairs: every entry counts, also a repeated attribute (fix C17b);
+                                       the regex is everything after the FIRST colon (fix C17c) *)
+  | None => acc
   end.
 Definition extract_filters (s : string) : list (string * string) :=
   if all_space s then [] else fold_left add_filter (split_on ","%char s) [].
 
 Section Filter.
   Variable re_search : string -> string -> bool.      (* pattern, subject: Python re.search *)
+  Variable py_str : json -> string.                   (* Python str() of a non-dict value *)
 
-  Definition one_filter (e : event) (ar : string * string) : res bool :=
+  (* found and not isinstance(e, dict) and regex.search(str(e)) is not None *)
+  Definition one_filter (e : event) (ar : string * string) : bool :=
     match walk (JD e) (split_on "."%char (fst ar)) with
-    | Err t => Err t
-    | Ok leaf =>
-        if is_dict leaf then Ok false
-        else match pystr leaf with
-             | Some s => Ok (re_search (snd ar) s)
-             | None => Err "Unmodelled"     (* str() of a float or list leaf *)
-             end
+    | None => false
+    | Some leaf => if is_dict leaf then false else re_search (snd ar) (py_str leaf)
     end.
 
-  Fixpoint event_filtered (fs : list (string * string)) (e : event) : res bool :=
-    match fs with
-    | [] => Ok false
-    | ar :: r => match one_filter e ar with
-                 | Err t => Err t
-                 | Ok true => Ok true
-                 | Ok false => event_filtered r e
-                 end
-    end.
+  (* for attr, regex in self.event_filter: ... return True;  return False  - total, no exception *)
+  Definition event_filtered (fs : list (string * string)) (e : event) : bool := existsb (one_filter e) fs.
 
   (* after the filter: jobname, and the guard under which the C05 correction cannot raise *)
   Definition job_name (jm : list (Z * string)) (jh : json) : string :=
@@ -328,11 +338,7 @@ Section Filter.
   Definition post (fs : list (string * string)) (jm : list (Z * string)) (e : event) : res (list event) :=
     match xform e with
     | Err t => Err t
-    | Ok e1 => match event_filtered fs e1 with
-               | Err t => Err t
-               | Ok true => Ok []
-               | Ok false => finish jm e1
-               end
+    | Ok e1 => if event_filtered fs e1 then Ok [] else finish jm e1
     end.
 
   (* the part of normalize_phase1 after the limiter's verdict *)
@@ -383,22 +389,12 @@ Definition cntd (c : limcfg) (es : list event) : Z := Z.of_nat (List.length (fil
 (* 1-based position of event i among the counted events, in arrival order *)
 Definition pos (c : limcfg) (es : list event) (i : nat) : Z := cntd c (firstn (S i) es).
 
-(* relational reading of "the attribute path resolves through dicts": a missing key stops at the
-   dict reached so far (which, being a dict, never matches) *)
+(* relational reading of "the event has the named (possibly nested) attribute": every component
+   of the path is a key of the dict reached so far; nothing resolves below a value that is not a
+   dict, and nothing resolves through a missing key *)
 Inductive resolves : json -> list string -> json -> Prop :=
 | rs_nil e : resolves e [] e
-| rs_step kv a rest v leaf : dget a kv = Some v -> resolves v rest leaf -> resolves (JD kv) (a :: rest) leaf
-| rs_miss kv a rest : dget a kv = None -> resolves (JD kv) (a :: rest) (JD kv).
-(* the path never has to continue below a non-dict node *)
-Fixpoint through_dicts (e : json) (path : list string) : bool :=
-  match path with
-  | [] => true
-  | a :: rest => match e with
-                 | JD kv => match dget a kv with Some v => through_dicts v rest | None => true end
-                 | _ => false
-                 end
-  end.
-Definition leaf_ok (j : json) : bool := is_dict j || match pystr j with Some _ => true | None => false end.
+| rs_step kv a rest v leaf : dget a kv = Some v -> resolves v rest leaf -> resolves (JD kv) (a :: rest) leaf.
 
 (* ------------------------------------------------------------------ regular expressions of the tie *)
 Inductive rx : Type :=
@@ -463,6 +459,9 @@ Definition out_val (o : res (list event)) : val :=
   | Ok l => VL (map (fun e => jval (JD (proj_event e))) l)
   end.
 
+(* str() in the tie: the leaves whose str() is modelled; [strs_modelled] below refuses anything else *)
+Definition tie_str (j : json) : string := match pystr j with Some s => s | None => "<str() not modelled>" end.
+
 Record tiein : Type := {
   t_cfg : limcfg; t_filter : string; t_tbl : list (string * pat); t_jobs : list (Z * string);
   t_events : list event }.
@@ -472,11 +471,26 @@ Definition tbl_complete (x : tiein) : bool :=
   forallb (fun ar => match find (fun y => String.eqb (fst y) (snd ar)) (t_tbl x) with Some _ => true | None => false end)
           (extract_filters (t_filter x)).
 
+(* no filter path ends at a value whose str() the tie does not model (float, list), on any slice of the stream *)
+Definition str_modelled (e1 : event) (ar : string * string) : bool :=
+  match walk (JD e1) (split_on "."%char (fst ar)) with
+  | None => true
+  | Some leaf => is_dict leaf || match pystr leaf with Some _ => true | None => false end
+  end.
+Definition strs_modelled (x : tiein) : bool :=
+  forallb (fun e => negb (is_X e) ||
+                    match xform e with
+                    | Ok e1 => forallb (str_modelled e1) (extract_filters (t_filter x))
+                    | Err _ => true
+                    end) (t_events x).
+
 (* direct drive of normalize_phase1 over a stream: one entry per input event *)
 Definition run_val (x : tiein) : val :=
-  if tbl_complete x then
-    VL (map out_val (run_stream (tbl_search (t_tbl x)) (t_cfg x) (extract_filters (t_filter x)) (t_jobs x) 0 (t_events x)))
-  else VE "NoRegexTree".
+  if negb (tbl_complete x) then VE "NoRegexTree"
+  else if negb (strs_modelled x) then VE "UnmodelledStr"
+  else
+    VL (map out_val (run_stream (tbl_search (t_tbl x)) tie_str (t_cfg x) (extract_filters (t_filter x)) (t_jobs x) 0
+                                (t_events x))).
 
 (* end to end: the uids (args.uid) of the X events that survive, in arrival order, and the number of
    non-X events passed through; any exception aborts the run *)
@@ -495,10 +509,11 @@ Fixpoint collect (os : list (res (list event))) (xs : list val) (others : Z) : v
       collect r xs' o'
   end.
 Definition e2e_val (x : tiein) : val :=
-  if tbl_complete x then
-    collect (run_stream (tbl_search (t_tbl x)) (t_cfg x) (extract_filters (t_filter x)) (t_jobs x) 0 (t_events x))
-            [] 0
-  else VE "NoRegexTree".
+  if negb (tbl_complete x) then VE "NoRegexTree"
+  else if negb (strs_modelled x) then VE "UnmodelledStr"
+  else
+    collect (run_stream (tbl_search (t_tbl x)) tie_str (t_cfg x) (extract_filters (t_filter x)) (t_jobs x) 0 (t_events x))
+            [] 0.
 
 (* non-triviality rule measured inside Coq: the limiter excludes at least one and keeps at least
    one non-ignored event *)
